@@ -209,9 +209,12 @@ def _frame(inp):
         nm["lineage_id"] = cols["lineage_id"]
     if inp.get("legacy_pos"):
         # legacy form of the mapping: one key per axis instead of the composite "pos"
+        # (the keys are written in the drawn order: a mapping is a dict, its order is arbitrary)
         nm.pop("pos")
-        for a in axes:
-            nm[a] = cols[a]
+        for i in inp["pos_order"]:
+            nm[axes[i]] = cols[axes[i]]
+        if inp["pos_order"][0] != 0 and inp.get("shuffle", 0) % 3 == 0:
+            nm = {k: nm[k] for k in [*[axes[i] for i in inp["pos_order"]], *[k for k in nm if k not in axes]]}
     return df, nm, axes
 
 
